@@ -169,9 +169,10 @@ def handle (d : DState) (line : String) : DState × List String :=
       match d.prods.get? pid.nat! with
       | none => (d, ["bad-pid"])
       | some p =>
-        let r := getNext d.env p dt.int!
         -- the first query anchors intervals without start (object state of the real producer)
-        let d := { d with prods := d.prods.insert pid.nat! (p.anchorAt dt.int!) }
+        let p := p.anchorAt dt.int!
+        let r := getNext d.env p dt.int!
+        let d := { d with prods := d.prods.insert pid.nat! p }
         (d, [match r with | .ok v => s!"ok {v}" | .error e => s!"err {e.name}"])
   | [.atom "local", u] =>
       let L := d.zone.toLocal u.int!
@@ -199,9 +200,9 @@ def handle (d : DState) (line : String) : DState × List String :=
       | some op =>
         let s0 := { d.sched with log := [], env := d.env }
         let (s', err) := step s0 op
-        let d := match op with
-          | .create j .. => if d.handles.contains j then d else { d with handles := d.handles ++ [j] }
-          | _ => d
+        let d := match op, err with
+          | .create j .., none => if d.handles.contains j then d else { d with handles := d.handles ++ [j] }
+          | _, _ => d
         ({ d with sched := s' }, schedOut d s' err)
   | [.atom "dump"] =>
       let s := d.sched
